@@ -577,3 +577,7 @@ def run(facts, rep, tier):
     rep.rule("C08-R11", "= C13-R8: rename starts from the link under the cursor, which is searched in every block / inline that can hold one (child tables hand out all nested content).")
     from . import children
     children.rule_child_tables(facts, rep, "C08-R11")
+    rep.rule("C08-R12", "The renamed note's content is unchanged, front matter included: the patch graph knows front matter under the old names only, so the text of the new file is given the "
+                        "front matter recorded for the OLD key (Graph::with_front_matter) - otherwise rename deletes the note's `---` block.")
+    from . import frontmatter
+    frontmatter.rule_rename_carries_front_matter(facts, rep, "C08-R12")
